@@ -8,12 +8,13 @@ BUDGET = {"quick": 45, "thorough": 780}
 RULE = ("worlds with heterogeneous voltages, all battery models, noise tapes, scripted schedules addressing vacant "
         "stations, 20% StochasticNetwork worlds; non-trivial = >=1 period with a non-zero rate strictly below the pilot "
         "(battery-limited) and >=1 non-zero pilot sent to a vacant station; distinct = per-period history signature")
-PROBES = ["battery_limited", "vacant_pilot", "resume_json", "stochastic_world", "noisy_battery", "party_charged_its_ev_copies", "second_life", "duplicate_plugin_event_refused"]
+PROBES = ["negative_rate_period", "battery_limited", "vacant_pilot", "resume_json", "stochastic_world", "noisy_battery", "party_charged_its_ev_copies", "second_life", "duplicate_plugin_event_refused"]
 FAULT_DIMENSION = "scheduler crash + rerun / JSON round trip; adversarial noise tape; a scheduler that 'charges' the EV copies it was handed (look-ahead)"
 ASSUMPTIONS = ["station voltages are taken from the scenario, not from the network object",
                "battery charge is read from the battery object's stored charge attribute (observation only)"]
 
-P_CUSTOM = world.profile(second_life=0.15, faults={"crash": 0.4, "mutate": 0.4}, resume_modes=["rerun", "rerun", "json_str"], noise=0.4, heterovolt=0.8,
+P_CUSTOM = world.profile(zero_demand=0.05, second_life=0.15, faults={"crash": 0.4, "mutate": 0.4}, resume_modes=["rerun", "rerun", "json_str"], noise=0.4, heterovolt=0.8,
+                         evse_kinds={"cont": 4, "dead": 2, "finite": 3, "cont_inf": 1, "cont_neg": 1},
                          party={"scripted": 5, "uncontrolled": 2, "greedy": 2, "rr": 1})
 P_STOCH = world.profile(net="stochastic", stations=(1, 4), faults={"crash": 0.3}, resume_modes=["rerun"], noise=0.3,
                         party={"scripted": 2, "uncontrolled": 3, "greedy": 2}, evse_kinds={"cont": 3, "finite": 2},
@@ -87,6 +88,8 @@ def check(sc):
             last_c[sid] = c
             if 0 < rate < pilot - 1e-9:
                 batt_lim += 1
+            if rate < 0:
+                out.probe("negative_rate_period")
         # sessions that moved into a station during post_charging_update keep their energy
         if "pre" in p:
             for s in ids:
